@@ -95,7 +95,9 @@ def handle : Handler := fun op inp =>
       let t ← parseTh (← field inp "th")
       let g ← parseScores inp
       let praw ← ratList (← field inp "praw")
-      return jExcept (jList (jPair jNat jRat)) (pValuesWorkerRow id t praw g)
+      let n1 ← asNat (← field inp "n1")
+      let n2 ← asNat (← field inp "n2")
+      return jExcept (jList (jPair jNat jRat)) (pValuesWorkerRow id t n1 n2 praw g)
   | "refmarkers.validityFromMask" => some do
       let nValid ← asNat (← field inp "nValid")
       let nGenes ← asNat (← field inp "nGenes")
